@@ -2,6 +2,7 @@
 import os, random
 import vlib
 from props.common import run_vectors
+from props import udpflow
 
 
 def run(tier, v, wd, replay=None):
@@ -40,6 +41,9 @@ def run(tier, v, wd, replay=None):
         out.writelines(lines)
     repo = vlib.scratch_repo(wd, "stub")
     run_vectors(v, wd, repo, "./component/sniffing/", "TestVerifC06", vec, timeout=600 if tier == "quick" else 3000)
+    # the datagrams as they reach the proxy: UdpFlow.tla replayed on the real ControlPlane.handlePkt (held Initial datagrams, replay in
+    # ingress order once the ClientHello is covered, nothing withheld afterwards, byte-for-byte payload, the name routes the flow)
+    udpflow.run("C06", tier, v, wd, repo)
     v.assumptions += ["QUIC Initial packets are protected by the harness with an independent implementation of RFC 9001 s5 / RFC 9369 on the standard library",
                       "stream timing is virtual (testing/synctest); sniffing timeout 100 ms; gaps: 0, timeout/4, 2 x timeout",
                       "byte strings that are none of the protocols (random, truncated, bit-flipped hellos) carry only the obligations: no panic, no overrun of the timeout, payload intact"]
